@@ -348,6 +348,7 @@ def check_end_to_end(ctx, c, pts, db, r, names, space, plan, index):
         return
     src = px.to_src(e)
     plain, _ = envs_for(names, k)
+    has_lambda = any(x[0] == 'Lambda' for x in _walk(e))
     T = db.T
     forms = ['string']
     every = plan['genform_every']
@@ -396,6 +397,12 @@ def check_end_to_end(ctx, c, pts, db, r, names, space, plan, index):
                     c['e2e_mismatch'] += 1
                     ctx.mismatch(signature('query', features(e), form), '%s query "%s" with %s: Python raises %s for the outer expression, pony bound %r' % (
                         form, text, plain[i], exp[i][1], got), rep)
+                continue
+            if outcome == 'error' and got in ('ExprEvalError', 'NameError', 'SyntaxError') and has_lambda:
+                # pony does not treat an expression that contains a lambda as one outer-scope expression: it evaluates the outer-scope
+                # pieces around the lambda one by one, eagerly (no short-circuit), so a piece may raise where Python would not
+                # evaluate it at all - an error, not a different value
+                c['e2e_error_instead_of_value_%s_in_piece_of_split_expression' % got] += 1
                 continue
             if outcome == 'error' and got in ('ExprEvalError', 'NameError', 'SyntaxError'):
                 # pony's own evaluation of the outer expression fails where Python yields a value: not "as Python would"
